@@ -15,6 +15,14 @@ use serde::{Deserialize, Serialize};
 #[derive(Clone, Debug, Serialize, Deserialize)]
 pub struct Trace {
     pub ops: Vec<BOp>,
+    /// take one more id() right before module() (exact "bound = next id" check); without it only
+    /// "bound exceeds every allocated id" can be demanded, but nothing repairs a stale bound either
+    #[serde(default = "yes")]
+    pub probe_at_end: bool,
+}
+
+fn yes() -> bool {
+    true
 }
 
 pub struct C13;
@@ -97,7 +105,12 @@ impl Property for C13 {
             };
             ops.push(op);
         }
-        Trace { ops }
+        // set_version creates / touches the header at an arbitrary point, often after the last allocation
+        if rng.chance(1, 3) {
+            let at = if rng.chance(1, 2) { ops.len() } else { rng.usize_below(ops.len() + 1) };
+            ops.insert(at, BOp::SetVersion(1, rng.below(7) as u8));
+        }
+        Trace { ops, probe_at_end: rng.chance(1, 2) }
     }
 
     fn execute(t: &Trace, cov: &mut Cov) -> RunOut {
@@ -287,14 +300,26 @@ impl Property for C13 {
         if violation.is_none() {
             let end = t.ops.len();
             let last_before = fresh.last().cloned().unwrap_or(0);
+            let probe = t.probe_at_end;
             let r = guarded(|| {
-                let p = d.b.id();
+                let p = if probe { Some(d.b.id()) } else { None };
                 let m = std::mem::take(&mut d.b).module();
                 (p, m)
             });
             match r {
                 Err(_) => cov.hit("skipped.panicked"),
-                Ok((p, m)) => {
+                Ok((None, m)) => {
+                    // no probe: the bound must still exceed every id allocated so far
+                    let max_id = d.all_ids.iter().cloned().max().unwrap_or(0).max(last_before);
+                    cov.hit("reached.module_without_final_probe");
+                    match m.header.as_ref().map(|h| h.bound) {
+                        Some(b) if b > max_id => {}
+                        other => {
+                            violation = viol("bound-exceeds-allocated", "module()".into(), end, format!("module() wrote bound {:?} but id {} had been allocated", other, max_id));
+                        }
+                    }
+                }
+                Ok((Some(p), m)) => {
                     if p <= last_before {
                         violation = viol("increasing", "fresh-id".into(), end, format!("final id() returned {} after {} had been allocated", p, last_before));
                     } else if m.header.as_ref().map(|h| h.bound) != Some(p + 1) {
@@ -327,7 +352,11 @@ impl Property for C13 {
     }
 
     fn shrink(t: &Trace) -> Vec<Trace> {
-        shrink_ops(&t.ops).into_iter().map(|ops| Trace { ops }).collect()
+        let mut v: Vec<Trace> = shrink_ops(&t.ops).into_iter().map(|ops| Trace { ops, probe_at_end: t.probe_at_end }).collect();
+        if !t.probe_at_end {
+            v.push(Trace { ops: t.ops.clone(), probe_at_end: true });
+        }
+        v
     }
 
     fn meta() -> Meta {
